@@ -5,6 +5,7 @@ import (
 	"go/ast"
 	"go/token"
 	"go/types"
+	"os"
 	"sort"
 	"strings"
 
@@ -35,6 +36,8 @@ type Engine struct {
 	paramMaybeNil map[*ssa.Parameter]string // parameter -> call site that may pass nil
 	Scope       map[*ssa.Function]bool      // functions whose call sites count for parameter preconditions
 	externSeen  map[string]*ExternUse
+	mapInv      map[string]bool
+	decs        map[*ssa.Function]*DecSummary
 }
 
 func NewEngine(prog *ssa.Program, cg *callgraph.Graph, inModule func(*ssa.Function) bool, goarch string) *Engine {
@@ -43,7 +46,7 @@ func NewEngine(prog *ssa.Program, cg *callgraph.Graph, inModule func(*ssa.Functi
 		sums: map[*ssa.Function]*Summary{}, sumBusy: map[*ssa.Function]bool{}, writes: map[*ssa.Function]*WriteSet{},
 		extWrites: map[*ssa.Function]*WriteSet{}, fieldInv: map[*types.Var]fieldInvRes{},
 		callees: map[ssa.CallInstruction][]*ssa.Function{}, callers: map[*ssa.Function][]ssa.CallInstruction{},
-		paramMaybeNil: map[*ssa.Parameter]string{}}
+		paramMaybeNil: map[*ssa.Parameter]string{}, mapInv: map[string]bool{}, decs: map[*ssa.Function]*DecSummary{}}
 	switch goarch {
 	case "386", "arm", "mips", "mipsle", "wasm":
 		e.WordBits = 32
@@ -135,8 +138,9 @@ func (e *Engine) Reachable(roots []*ssa.Function) []*ssa.Function {
 func (e *Engine) newFuncAn(f *ssa.Function) *FuncAn {
 	return &FuncAn{E: e, Fn: f, atoms: map[string]*Atom{}, atomDef: map[*Atom]*ssa.BasicBlock{}, atomDeps: map[*Atom][]*Atom{},
 		linMemo: map[ssa.Value]Lin{}, lenMemo: map[ssa.Value]Lin{}, escMemo: map[*ssa.Alloc]bool{}, canon: map[ssa.Value]ssa.Value{},
-		in: map[*ssa.BasicBlock]*State{}, elemLenMemo: map[ssa.Value]*Lin{}, inited: map[*Atom]bool{}, inited2: map[*Atom]bool{},
-		provers: map[*State]*prover{}, atomLoad: map[*Atom]*ssa.UnOp{}}
+		in: map[*ssa.BasicBlock]*State{}, out: map[*ssa.BasicBlock]*State{}, elemLenMemo: map[ssa.Value]*Lin{}, inited: map[*Atom]bool{}, inited2: map[*Atom]bool{},
+		provers: map[*State]*prover{}, atomLoad: map[*Atom]*ssa.UnOp{},
+		loadSnap: map[*ssa.UnOp]map[string]ssa.Value{}, callSnap: map[*ssa.Call]map[string]ssa.Value{}}
 }
 
 // Analyze runs (once) the intraprocedural analysis of f.
@@ -181,6 +185,25 @@ type Obl struct {
 	Why        string
 	Nontrivial bool
 	Input      bool // some operand derives from an input symbol
+	Assumed    string // discharged by a stated assumption (e.g. "A5"), not by a fact
+}
+
+// isInterfaceSliceElement: v is loaded from an element of a slice whose element type is an interface.
+func isInterfaceSliceElement(v ssa.Value) bool {
+	ld, ok := v.(*ssa.UnOp)
+	if !ok || ld.Op != token.MUL {
+		return false
+	}
+	ia, ok := ld.X.(*ssa.IndexAddr)
+	if !ok {
+		return false
+	}
+	sl, ok := ia.X.Type().Underlying().(*types.Slice)
+	if !ok {
+		return false
+	}
+	_, isIface := sl.Elem().Underlying().(*types.Interface)
+	return isIface
 }
 
 func (o *Obl) Pos() token.Pos { return o.Instr.Pos() }
@@ -306,6 +329,11 @@ func (a *FuncAn) check(b *ssa.BasicBlock, goals []Goal) (bool, string) {
 	}
 	for _, g := range goals {
 		if !a.Entails(b, g.L) {
+			if DebugAllFacts {
+				for _, f := range a.proverFor(a.in[b]).facts {
+					fmt.Println("DEBUG prover fact:", f.String(), ">= 0")
+				}
+			}
 			return false, "cannot show " + g.Text + "  [" + a.goalText(g.L) + "]; facts: " + a.factsText(b, g.L)
 		}
 	}
@@ -316,6 +344,9 @@ func (a *FuncAn) check(b *ssa.BasicBlock, goals []Goal) (bool, string) {
 	return true, strings.Join(ts, ", ") + " from " + a.factsText(b, Lin{})
 }
 
+// DebugAllFacts makes failure texts list every fact of the block (LWDEBUG=facts).
+var DebugAllFacts = os.Getenv("LWDEBUG") == "facts"
+
 // factsText lists the state facts of block b (those sharing an atom with g when g has atoms).
 func (a *FuncAn) factsText(b *ssa.BasicBlock, g Lin) string {
 	s := a.in[b]
@@ -324,7 +355,7 @@ func (a *FuncAn) factsText(b *ssa.BasicBlock, g Lin) string {
 	}
 	var out []string
 	for _, f := range s.sortedFacts() {
-		if len(g.t) > 0 {
+		if len(g.t) > 0 && !DebugAllFacts {
 			rel := false
 			for _, t := range g.t {
 				if f.Coef(t.a) != 0 {
@@ -336,7 +367,7 @@ func (a *FuncAn) factsText(b *ssa.BasicBlock, g Lin) string {
 			}
 		}
 		out = append(out, f.String()+" >= 0")
-		if len(out) >= 8 {
+		if len(out) >= 8 && !DebugAllFacts {
 			out = append(out, "…")
 			break
 		}
@@ -385,7 +416,7 @@ func (e *Engine) Obligations(f *ssa.Function) []*Obl {
 		}
 		nilSeen[k] = true
 		o := &Obl{Fn: f, Instr: ins, Kind: "nil", Want: what + " is non-nil", Nontrivial: true}
-		s := a.in[ins.Block()]
+		s := a.stateBefore(ins)
 		switch {
 		case !a.Converged:
 			o.Status, o.Why = Failed, "analysis of the function did not converge"
@@ -393,6 +424,9 @@ func (e *Engine) Obligations(f *ssa.Function) []*Obl {
 			o.Why = "block unreachable"
 		case a.isNonNil(s, v):
 			o.Why = "dominating non-nil fact for " + a.valName(v)
+		case isInterfaceSliceElement(v):
+			o.Why = "assumption A5: interface elements of a payload slice are non-nil (" + a.valName(v) + ")"
+			o.Assumed = "A5"
 		default:
 			o.Status = Failed
 			o.Why = "no dominating non-nil check for " + a.valName(v)
